@@ -16,6 +16,7 @@ PID = "C02"
 LEVEL = "exploration"
 ENGINE = "ctxsim"
 CHUNK = 4
+REACH = ['verdict:accept', 'verdict:reject', 'sibling:new:tg', 'sibling:new:bt', 'sibling:old:tg', 'sibling:new:tg:dc']  # counters (prefixes) that a healthy batch makes non-zero; gaps are reported in the evidence
 BUDGET = {"quick": 40, "thorough": 600}
 RULE = (
     "Seeded call families: 1-5 parameters + return, tokens from {name, #name, int, #int, _, *v, *#v, ..., symbolic "
